@@ -6,7 +6,7 @@
    returns must be the model's -- literal, level and reason clause, in order --
    and the call must end the way the model's does (no conflict / the same
    conflicting clause). *)
-From Resolvo Require Export Cdcl.PropagateHyp Cdcl.AnalyzeRun.
+From Resolvo Require Export Cdcl.PropagateHyp Cdcl.PropagateCompleteHyp Cdcl.AnalyzeRun.
 
 Inductive pevent :=
 | PEAssign (l : lit) (level reason : N)
@@ -41,7 +41,8 @@ Record rstate := mkRS {
   r_st : pstate;
   r_known : N;                                 (* clauses already watched *)
   r_asserts : list (lit * N);
-  r_units : list (lit * N)
+  r_units : list (lit * N);
+  r_exempt : list N                            (* clauses born with both watched literals false *)
 }.
 
 (* one clause starts to exist *)
@@ -54,7 +55,11 @@ Definition add_clause (rs : rstate) (id : N) : option rstate :=
                     else r_asserts rs in
     let units1 := if is_learnt c then match cl_lits c with [l] => r_units rs ++ [(l, id)] | _ => r_units rs end
                   else r_units rs in
-    Some (mkRS st1 (N.succ id) asserts1 units1)
+    let exempt1 := match w with
+                   | Some w => if plit_false (r_st rs) (fst w) && plit_false (r_st rs) (snd w) then id :: r_exempt rs else r_exempt rs
+                   | None => r_exempt rs
+                   end in
+    Some (mkRS st1 (N.succ id) asserts1 units1 exempt1)
   | _, _ => None
   end.
 
@@ -71,40 +76,42 @@ Definition new_entries (before after : pstate) : list tent :=
 
 Inductive expect := ENone | EModel (es : list tent) (conf : option N) (after : pstate).
 
-(* (propagate calls compared, assignments compared, all equal, hypotheses of propagate_sound at every call) *)
-Fixpoint preplay (evs : list pevent) (rs : rstate) (ex : expect) (nc na : N) (hyp : bool) : N * N * bool * bool :=
+(* (propagate calls compared, assignments compared, all equal, hypotheses of propagate_sound at every call,
+   calls at which the hypotheses of propagate_complete did NOT hold) *)
+Fixpoint preplay (evs : list pevent) (rs : rstate) (ex : expect) (nc na : N) (hyp : bool) (nbad : N) : N * N * bool * bool * N :=
   match evs with
-  | [] => (nc, na, true, hyp)
+  | [] => (nc, na, true, hyp, nbad)
   | e :: t =>
     match ex, e with
     | EModel (x :: xs) conf after, PEAssign l lv reason =>
-        if tent_eqb x (mkT l lv reason) then preplay t rs (EModel xs conf after) nc (N.succ na) hyp else (nc, na, false, hyp)
+        if tent_eqb x (mkT l lv reason) then preplay t rs (EModel xs conf after) nc (N.succ na) hyp nbad else (nc, na, false, hyp, nbad)
     | EModel [] conf after, PEResult r =>
-        if optn_eqb conf r then preplay t (mkRS after (r_known rs) (r_asserts rs) (r_units rs)) ENone (N.succ nc) na hyp
-        else (nc, na, false, hyp)
-    | EModel _ _ _, _ => (nc, na, false, hyp)
+        if optn_eqb conf r then preplay t (mkRS after (r_known rs) (r_asserts rs) (r_units rs) (r_exempt rs)) ENone (N.succ nc) na hyp nbad
+        else (nc, na, false, hyp, nbad)
+    | EModel _ _ _, _ => (nc, na, false, hyp, nbad)
     | ENone, PEAssign l lv reason =>
-        preplay t (mkRS (push_entry (r_st rs) (mkT l lv reason)) (r_known rs) (r_asserts rs) (r_units rs)) ENone nc na hyp
+        preplay t (mkRS (push_entry (r_st rs) (mkT l lv reason)) (r_known rs) (r_asserts rs) (r_units rs) (r_exempt rs)) ENone nc na hyp nbad
     | ENone, PEUndoLast =>
-        preplay t (mkRS (undo_last (r_st rs)) (r_known rs) (r_asserts rs) (r_units rs)) ENone nc na hyp
+        preplay t (mkRS (undo_last (r_st rs)) (r_known rs) (r_asserts rs) (r_units rs) (r_exempt rs)) ENone nc na hyp nbad
     | ENone, PEUndoUntil lv =>
-        preplay t (if N.eqb lv 0 then mkRS (clear_trail (r_st rs)) (r_known rs) (r_asserts rs) (r_units rs) else rs) ENone nc na hyp
-    | ENone, PEOther => preplay t rs ENone nc na hyp
-    | ENone, PEResult _ => (nc, na, false, hyp)
+        preplay t (if N.eqb lv 0 then mkRS (clear_trail (r_st rs)) (r_known rs) (r_asserts rs) (r_units rs) (r_exempt rs) else rs) ENone nc na hyp nbad
+    | ENone, PEOther => preplay t rs ENone nc na hyp nbad
+    | ENone, PEResult _ => (nc, na, false, hyp, nbad)
     | ENone, PEPropagate lv n =>
         match add_clauses (S (length db)) rs n with
-        | None => (nc, na, false, hyp)
+        | None => (nc, na, false, hyp, nbad)
         | Some rs1 =>
           let hyp1 := hyp && prop_hyps db (r_asserts rs1) (r_units rs1) (r_st rs1) in
+          let nbad1 := if comp_hyps (r_exempt rs1) (r_st rs1) then nbad else N.succ nbad in
           match propagate db lv (r_asserts rs1) (r_units rs1) (r_st rs1) with
-          | None => (nc, na, false, hyp1)
-          | Some (after, conf) => preplay t rs1 (EModel (new_entries (r_st rs1) after) (option_map snd conf) after) nc na hyp1
+          | None => (nc, na, false, hyp1, nbad1)
+          | Some (after, conf) => preplay t rs1 (EModel (new_entries (r_st rs1) after) (option_map snd conf) after) nc na hyp1 nbad1
           end
         end
     end
   end.
 
-Definition check_propagates (evs : list pevent) : N * N * bool * bool :=
-  preplay evs (mkRS ps0 0 [] []) ENone 0 0 true.
+Definition check_propagates (evs : list pevent) : N * N * bool * bool * N :=
+  preplay evs (mkRS ps0 0 [] [] []) ENone 0 0 true 0.
 
 End Run.
